@@ -421,6 +421,9 @@ def harnesses():
         hs.append(Harness(f"pairing.legacy[{n}]", h_pairing_legacy(n),
                           units=[(E_PY, "EvalFunc.trigger_init"), (E_PY, "EvalFunc.trigger_stop")],
                           replay=replay_pairing))
+    hs.append(mutator_closure_harness("C12", "service-tables", {"service_cnt": {"cls", "Function"},
+                                                                "service2global_ctx": {"cls", "Function"}},
+                                      {"Function.service_register", "Function.service_remove"}))
     return hs + harnesses_outgoing()
 
 
